@@ -133,7 +133,20 @@ def nanops_stream(res, rng, tier):
             continue
         want = np_ref(name, arr)
         approx = 1e-5 if dt == "float32" else (name in ("nanmean", "nanvar", "nanstd"))  # float32: NumPy accumulates in float32, the library in float64
-        if not same_num(got, want, approx):
+        ok = same_num(got, want, approx)
+        if not ok and name in ("nanvar", "nanstd") and dt != "float32":
+            # two implementations of the two-pass variance may differ by the square of the rounding error of their means
+            # (sum (x - m')^2 = sum (x - m)^2 + n (m' - m)^2): with mean errors up to n u max|x| each, the variances may be
+            # 2 (2 n u max|x|)^2 apart - visible only when the spread is a few thousand ulps of the magnitude (epoch ns)
+            finite = [abs(float(x)) for x in arr if x == x]
+            if finite and got == got and want == want:
+                dmean = 2 * len(finite) * 2.0 ** -53 * max(finite)
+                slack = 2 * dmean * dmean
+                if name == "nanvar":
+                    ok = abs(float(got) - float(want)) <= slack + 1e-9 * abs(float(want))
+                else:
+                    ok = abs(float(got) ** 2 - float(want) ** 2) <= slack + 2e-9 * float(want) ** 2
+        if not ok:
             res.violations.append(dict(sig=dict(helper="nanops", func=name, dtype=dt, what="differs-from-numpy"), case=case, observed=str(got), expected=str(want),
                                        what=f"nanops.{name} with n_threads={nt} differs from NumPy"))
         if rq is not None:
